@@ -5,10 +5,11 @@ source "$(dirname "$0")/env.sh"
 cd "$VERIF_DIR"
 mkdir -p bin evidence replays
 (cd mkoverlay && go build -o "$VERIF_DIR/bin/mkoverlay" .)
-cp "$REPO_DIR/go.sum" "$VERIF_DIR/go.sum"
 S=$(mktemp -d "${TMPDIR:-/var/tmp}/panmc-setup.XXXXXX")
 trap 'rm -rf "$S"' EXIT
+sed "s#=> /repo#=> $REPO_DIR#g" "$VERIF_DIR/go.mod" > "$S/go.mod"
+cat "$REPO_DIR/go.sum" > "$S/go.sum"
 "$VERIF_DIR/bin/mkoverlay" -repo "$REPO_DIR" -rt "$VERIF_DIR/rt" -out "$S" >/dev/null
-go build -overlay "$S/overlay.json" -o "$S/panmc" ./cmd/panmc
+go build -modfile="$S/go.mod" -overlay "$S/overlay.json" -o "$S/panmc" ./cmd/panmc
 (cd "$REPO_DIR" && go build -o "$S/pangaea" .)
 echo "setup ok"
